@@ -165,7 +165,64 @@ def run(chk):
         if mres != ires[:len(mres)] or (ires[:1] == ['R'] and mres[:3] != ires[:3]):
             ndis += 1
             chk.tie_break('correspondence:lz4', 'model %r vs implementation %r' % (m, i), c)
-    chk.partial.append('API-level transparency (compressed vs uncompressed font twins) is exercised by the C10/C01 checks; here the decoder component and Face::Table header logic')
+    # --- transparency at the level of the font: the Awami test font with Silf (version 5) and Glat (version 3) stored plain against twins
+    # whose Silf or Glat is stored as a valid LZ4 block of the same bytes -- every match the one-pass encoder finds, half of them, and
+    # blocks that are only 1 .. 16 bytes shorter than the data ("shorter than the data" is all the property asks of an encoding)
+    import os, struct
+    from props import apiseq, fontkit as K, shapegen as S
+    tdir = os.path.join(vlib.BUILD, 'fuzzfonts', 'c14-%s-%d' % (chk.tier, chk.seed)); os.makedirs(tdir, exist_ok=True)
+    src = open(os.path.join(vlib.REPO, 'tests/fonts', 'Awami_compressed_test.ttf'), 'rb').read()
+    tabs = K.font_tables(src)
+    plain_tables = {}
+    for tag in (b'Silf', b'Glat'):
+        o, ln = tabs[tag]
+        t = src[o:o + ln]
+        hdr = struct.unpack('>I', t[4:8])[0]
+        plain_tables[tag] = bytes(L.ref_decode(list(t[8:]))) if hdr >> 27 == 1 else t
+    plain_font = K.replace_table(K.replace_table(src, b'Silf', plain_tables[b'Silf']), b'Glat', plain_tables[b'Glat'])
+    pf = os.path.join(tdir, 'plain.ttf'); open(pf, 'wb').write(plain_font)
+    twins = []
+    rng = chk.rng
+    for tag in (b'Silf', b'Glat'):
+        data = list(plain_tables[tag])
+        ms = L.fast_matches(data)
+        encs = [('all matches', L.encode_matches(data, ms)), ('half of the matches', L.encode_matches(data, ms[::2]))]
+        for dl in ((1, 2, 5, 8, 9, 16) if chk.tier == 'thorough' else (rng.choice((1, 2, 3)), rng.choice((5, 7, 8)), 9)):
+            b = L.encode_barely(data, dl, rng)
+            if b is not None:
+                encs.append(('%d bytes shorter than the data' % dl, b))
+        for what, blk in encs:
+            if len(blk) >= len(data) or L.ref_decode(blk) != data:
+                continue
+            tbl = plain_tables[tag][:4] + struct.pack('>I', (1 << 27) | len(data)) + bytes(blk)
+            p = os.path.join(tdir, 'twin%d.ttf' % len(twins))
+            open(p, 'wb').write(K.replace_table(plain_font, tag, tbl))
+            twins.append((p, '%s as an LZ4 block with %s (%d -> %d bytes)' % (tag.decode(), what, len(data), len(blk))))
+    _, lines, _ = S.seeds(vlib.REPO, 'Awami_test.ttf')
+    ops = ['info'] + ['seg:%d:32:1:-:-:%s' % (j, ''.join('%08x' % c for c in t[:30])) for j, t in enumerate(rng.sample(lines, min(3, len(lines))))] + ['info']
+    hapi = apiseq.build('asan')
+    tcases = []
+    for k, (p, what) in enumerate([(pf, 'plain')] + twins):
+        for o, sm in ((0, 'cb'), (7, 'file')):
+            tcases.append('t%d.%d%s api %s %d %s - %s' % (k, o, sm, p, o, sm, ' '.join(ops)))
+    _, til, _ = vlib.run_pair(None, hapi, tcases, timeout=2400)
+    ref = {}
+    for c, l in zip(tcases, til):
+        k = int(c.split()[0][1:].split('.')[0]); var = c.split()[0].split('.')[1]
+        what = 'plain' if k == 0 else twins[k - 1][1]
+        r = apiseq.results(l) if l else None
+        if l is None or 'ABORT' in l.split()[1:3] or r is None:
+            chk.violation('c14:transparency-abort:%s' % what[:80], 'loading / shaping the font aborted: %s' % (l or '')[:300], dict(case=c, got=(l or '')[:600], encoding=what)); continue
+        if k == 0:
+            ref[var] = r
+            if r[0] != 'face=ok':
+                chk.tie_break('harness', 'the plain twin does not load: %s' % l[:200], c[:200])
+            continue
+        classes.add(('twin', what.split(' (')[0][:40], r[0]))
+        if var in ref and (r[0], r[1]) != (ref[var][0], ref[var][1]):
+            chk.violation('c14:transparency:%s' % what[:100], 'the font with %s does not behave as the same font with the table stored plain: %s vs %s'
+                          % (what, r[0] + ' ' + ' | '.join(r[1])[:160], ref[var][0] + ' ' + ' | '.join(ref[var][1])[:160]), dict(case=c, got=l[:800], encoding=what))
+    dist['compressed twins'] = len(twins)
     chk.cov.update(evaluations=len(cases), distinct_nontrivial=len(classes), disagreements_checked=ndis, distribution=dist,
                    rule='valid blocks from a Python encoder (greedy / random match choices incl. overlapping matches / literal-only) of repetitive, periodic, '
                         'dictionary and random data, long 255-chains, output size +-1, input +-1 byte, guard-targeted mutations, hand-built boundary blocks '
